@@ -15,7 +15,8 @@
                 Every program runs in a child forked from a worker that only imported the package, so a reported program
                 is self-contained; failing programs are shrunk step by step in further children.
   deep          path-shaped graphs (DFS depth = n) evaluated in a fresh interpreter process per case, so that a crash of
-                the process (native stack overflow) is observed as such.
+                the process is observed as such; SCC up to depth 20000 with the recursion limit raised (stack exhaustion
+                itself is outside the contracts, see the comment at DEEP_SCC_QUICK), the other functions up to 300000 nodes.
 """
 from __future__ import annotations
 
@@ -156,6 +157,11 @@ def weigh(rng, arcs, style, n, cycle_nodes=None):
         return [(u, v, rng.randint(0, 80) / 8.0) for u, v in arcs]
     if style == "signed":
         return [(u, v, rng.randint(-50, 100)) for u, v in arcs]
+    if style == "fine":
+        # near-ties: small integer parts, separated by multiples of 2^-40 (2^-36 above 1024 nodes, so that every sum of
+        # at most n weights is still exact in binary64: 8 n < 2^17, 17 + 36 = 53 bits)
+        unit = 2.0 ** (-40 if n <= 1024 else -36)
+        return [(u, v, rng.randint(1, 6) + rng.randint(-4, 4) * unit) for u, v in arcs]
     raise KeyError(style)
 
 
@@ -167,13 +173,14 @@ def _listify(E):
 def ladder_variants(fn, tier):
     """Names of the variants generated for one (function, size); `ladder_case` builds them."""
     v = {
-        "floyd_warshall": ["wide/directed", "potential/directed", "ties/undirected", "dyadic/undirected", "negcycle/directed", "negative/undirected"],
-        "bellman_ford": ["wide/none", "potential/reach", "potential/unreach", "ties/none", "negcycle/unreach", "negcycle/none", "negcycle-apart/reach"],
-        "dijkstra_edges": ["wide/none", "ties/reach", "dyadic/reach", "wide/unreach", "ties/none"],
+        "floyd_warshall": ["wide/directed", "potential/directed", "ties/undirected", "dyadic/undirected", "negcycle/directed", "negative/undirected", "fine/directed", "fine/undirected"],
+        "bellman_ford": ["wide/none", "potential/reach", "potential/unreach", "ties/none", "negcycle/unreach", "negcycle/none", "negcycle-apart/reach", "fine/none", "fine/reach",
+                         "revpath/none"],
+        "dijkstra_edges": ["wide/none", "ties/reach", "dyadic/reach", "wide/unreach", "ties/none", "fine/none", "fine/reach"],
         "bfs_edges": ["sparse/none", "sparse/reach", "sparse/unreach", "path/reach"],
         "dfs_edges": ["sparse/none", "sparse/reach", "sparse/unreach", "path/reach"],
-        "kruskal": ["wide/connected", "ties/connected", "signed/forest", "dyadic/disconnected", "signed/connected"],
-        "pagerank_edges": ["default", "short-budget", "loose", "low-damping"],
+        "kruskal": ["wide/connected", "ties/connected", "signed/forest", "dyadic/disconnected", "signed/connected", "fine/connected"],
+        "pagerank_edges": ["default", "short-budget", "loose", "low-damping", "long"],
         "strongly_connected_components_edges": ["blocks", "sparse", "path-back", "dag"],
         "topological_sort_edges": ["dag", "dag+selfloop", "dag+backarc", "blocks"],
     }
@@ -203,6 +210,14 @@ def ladder_case(fn, n, variant, seed, tier="quick"):
         else:
             E = weigh(rng, arcs, a, n)
         c["edges"] = _listify(E)
+        return c
+    if fn == "bellman_ford" and a == "revpath":
+        # a path whose edges are listed from the far end: every round of relaxations settles one more node (n - 1 rounds)
+        if n > NEG_CYCLE_MAX_N[tier]:
+            return None
+        arcs, lab = arcs_path(rng, n, chords=n // 10, shuffle=False)
+        arcs = arcs[:n - 1][::-1] + arcs[n - 1:]
+        c.update(source=lab[0], target=None, edges=_listify(weigh(rng, arcs, "wide", n)))
         return c
     if fn == "bellman_ford":
         arcs, lab, k = arcs_sparse(rng, n, density=2.5, reach=0.8)
@@ -236,7 +251,10 @@ def ladder_case(fn, n, variant, seed, tier="quick"):
         return c
     if fn == "pagerank_edges":
         arcs, lab, k = arcs_sparse(rng, n, density=rng.choice([2.0, 3.0]), reach=0.9)
-        opt = {"default": (0.85, 100, 1e-6), "short-budget": (0.85, 7, 1e-8), "loose": (0.9, 50, 1e-3), "low-damping": (0.3, 100, 1e-10)}[variant]
+        if variant == "long" and n > 140:
+            return None  # thousands of pure-Python sweeps
+        opt = {"default": (0.85, 100, 1e-6), "short-budget": (0.85, 7, 1e-8), "loose": (0.9, 50, 1e-3), "low-damping": (0.3, 100, 1e-10),
+               "long": (0.995, 10000, 1e-10)}[variant]
         c.update(damping=opt[0], max_iter=opt[1], tol=opt[2], edges=_listify(arcs))
         return c
     if fn == "strongly_connected_components_edges":
@@ -686,7 +704,7 @@ def eval_history(prog, shrink=True):
 
 def plan_history(tier, seed):
     q = tier == "quick"
-    total = 640 if q else 40000
+    total = 400 if q else 30000
     per = 20 if q else 250
     units = [{"kind": "history", "fn": "history", "first": i, "count": min(per, total - i), "seed": seed, "tier": tier} for i in range(0, total, per)]
     row = {"name": "history mode (all nine functions)", "programs": total, "nodes": "2..40", "steps": "5-12 call groups (25% repeated), 1-3 in-place edits before each",
@@ -697,9 +715,15 @@ def plan_history(tier, seed):
 
 
 # =========================================================================== deep (fresh process per case)
-DEEP_QUICK = (1200, 65536)
-DEEP_THOROUGH = (990, 1200, 5000, 20000, 65536, 131072, 300000)
-DEEP_TAG = " [path-shaped graph, DFS depth = n >= 1000, default recursion limit]"
+# strongly_connected_components_edges recurses once per DFS level in BOTH implementations: the Python one raises
+# RecursionError at depth ~990 under the default limit (documented in solvor/scc.py, callers are told to raise it), the
+# Rust one overflows the native stack (SIGSEGV) between depth 40000 and 50000.  Stack exhaustion is outside the contracts
+# (assumption A3 of the project); the family stays inside what both can do: depth <= 20000, recursion limit raised
+# around the call.  The other arc-list functions keep explicit stacks and are taken to 300000 nodes.
+DEEP_SCC_QUICK = (1200, 20000)
+DEEP_SCC_THOROUGH = (990, 1200, 5000, 10000, 20000)
+DEEP_OTHER_QUICK = (65536,)
+DEEP_OTHER_THOROUGH = (20000, 65536, 131072, 300000)
 
 
 def expand_edges(case):
@@ -717,16 +741,21 @@ def expand_edges(case):
 
 
 def deep_cases(tier):
+    q = tier == "quick"
     out = []
-    for n in (DEEP_QUICK if tier == "quick" else DEEP_THOROUGH):
-        for fn in ("strongly_connected_components_edges", "topological_sort_edges", "bfs_edges", "dfs_edges"):
-            if tier == "quick" and n < 65536 and fn != "strongly_connected_components_edges":
-                continue
+    for n in (DEEP_SCC_QUICK if q else DEEP_SCC_THOROUGH):
+        for closed in (False, True):
+            e = {"shape": "path", "n": n}
+            if closed:
+                e["closed"] = True
+            out.append({"fn": "strongly_connected_components_edges", "n": n, "edges": e, "family": "deep/cycle" if closed else "deep/path",
+                        "recursion_limit": 20 * n + 10000, "backends": list(B3)})
+    for n in (DEEP_OTHER_QUICK if q else DEEP_OTHER_THOROUGH):
+        for fn in ("topological_sort_edges", "bfs_edges", "dfs_edges"):
             c = {"fn": fn, "n": n, "edges": {"shape": "path", "n": n}, "family": "deep/path", "backends": list(B3)}
-            if fn in ("bfs_edges", "dfs_edges"):
+            if fn != "topological_sort_edges":
                 c.update(source=0, target=n - 1)
             out.append(c)
-        out.append({"fn": "strongly_connected_components_edges", "n": n, "edges": {"shape": "path", "n": n, "closed": True}, "family": "deep/cycle", "backends": list(B3)})
     return out
 
 
@@ -756,16 +785,17 @@ def eval_deep(tmp, case):
             R[b] = {"exc": d} if d else r[b]
     full = expand_edges(case)
     V, nontrivial, inc, pvo = C._judge(full, R)
-    deep = full["n"] >= 1000
-    V = [(o + DEEP_TAG if deep and o.endswith("returns-on-every-backend") else o, d) for o, d in V]
     return case, (V, nontrivial, inc, pvo), len(case["backends"]), 1
 
 
 def plan_deep(tier, seed):
     cases = deep_cases(tier)
     units = [{"kind": "deep", "fn": c["fn"], "cases": [c], "tier": tier, "count": 30} for c in cases]
-    row = {"name": "deep path-shaped graphs (arc-list functions)", "nodes": list(DEEP_QUICK if tier == "quick" else DEEP_THOROUGH), "shapes": "path 0->1->...->n-1; the same closed to a cycle (SCC)",
-           "isolation": "one new interpreter process per case and back end (a native crash is observed as the exit signal)", "cases": len(cases)}
+    q = tier == "quick"
+    row = {"name": "deep path-shaped graphs (arc-list functions)", "shapes": "path 0->1->...->n-1; for SCC also closed to one cycle",
+           "nodes_scc": list(DEEP_SCC_QUICK if q else DEEP_SCC_THOROUGH), "nodes_topological_sort_bfs_dfs": list(DEEP_OTHER_QUICK if q else DEEP_OTHER_THOROUGH),
+           "recursion_limit": "raised to 20 n + 10000 around SCC calls (solvor/scc.py docstring); SCC depth capped at 20000 (Rust kernel: native stack overflow between 40000 and 50000)",
+           "isolation": "one new interpreter process per case (a native crash is observed as the exit signal; then one process per back end)", "cases": len(cases)}
     return units, [row]
 
 
